@@ -333,6 +333,37 @@ pub enum NextItem {
 /// The grammar recurses once per nested parenthesis or prefix operator
 const MAX_NESTING: usize = 64;
 
+/// The conditional directive a line begins with (after an optional label), found without the
+/// grammar: the rest of a line that is passed over need not be valid
+fn conditional_directive(line: &str) -> Option<Directive> {
+    let mut rest = line.trim_start();
+    if let Some(colon) = rest.find(':') {
+        let label = &rest[..colon];
+        if !label.is_empty()
+            && label.chars().all(|c| c.is_ascii_alphanumeric() || c == '_')
+            && !label.starts_with(|c: char| c.is_ascii_digit())
+        {
+            rest = rest[colon + 1..].trim_start();
+        }
+    }
+    if !(rest.starts_with('.') || rest.starts_with('#')) {
+        return None;
+    }
+    let word: String = rest[1..]
+        .chars()
+        .take_while(|c| c.is_ascii_lowercase())
+        .collect();
+    match word.as_str() {
+        "if" => Some(Directive::If),
+        "ifdef" => Some(Directive::IfDef),
+        "ifndef" => Some(Directive::IfNDef),
+        "elif" => Some(Directive::ElIf),
+        "else" => Some(Directive::Else),
+        "endif" => Some(Directive::Endif),
+        _ => None,
+    }
+}
+
 /// Tells whether an expression on the line is nested deeper than MAX_NESTING levels; such a line
 /// is not handed to the grammar, it would exhaust the stack
 fn nested_too_deep(line: &str) -> bool {
@@ -487,11 +518,20 @@ fn skip<'a>(
                         line,
                         handed_back: &handed_back,
                     };
-                    if nested_too_deep(line) {
-                        continue;
-                    }
-                    if let Ok(item) = document::line(line) {
-                        if let Document::DirectiveLine(_, directive, _) = item {
+                    // a line that is too deep for the grammar, or that the grammar refuses, still counts
+                    // when it begins with a conditional directive
+                    let item = if nested_too_deep(line) {
+                        Err(())
+                    } else {
+                        document::line(line).map_err(|_| ())
+                    };
+                    let directive = match item {
+                        Ok(Document::DirectiveLine(_, directive, _)) => Some(directive),
+                        Ok(_) => None,
+                        Err(_) => conditional_directive(line),
+                    };
+                    if let Some(directive) = directive {
+                        {
                             if other == NextItem::EndIf || other == NextItem::EndIfAll {
                                 if directive == Directive::If
                                     || directive == Directive::IfDef
